@@ -97,6 +97,9 @@ func (rl *ReconciledLoader) SetRemoteOnline(online bool) {
 		return
 	}
 	if rl.open && !wasOpen {
+		// a new remote request answers from the root again: whatever is still
+		// buffered from an earlier one (before a pause) is not part of its stream
+		rl.remoteQueue.clear()
 		// if we're opening a remote request, we need to reverify against what we've loaded so far
 		rl.verifier = traversalrecord.NewVerifier(rl.traversalRecord)
 	}
